@@ -3,14 +3,17 @@ package checks
 import (
 	"context"
 	"fmt"
+	"math"
 	"sort"
 	"strings"
 
 	"github.com/sdcio/cache/proto/cachepb"
+	"github.com/sdcio/data-server/pkg/cache"
 	"github.com/sdcio/data-server/pkg/config"
 	"github.com/sdcio/data-server/pkg/datastore"
 	schemaClient "github.com/sdcio/data-server/pkg/datastore/clients/schema"
 	"github.com/sdcio/data-server/pkg/server"
+	"github.com/sdcio/data-server/pkg/tree"
 	"github.com/sdcio/data-server/pkg/utils"
 	sdcpb "github.com/sdcio/sdc-protos/sdcpb"
 
@@ -205,6 +208,9 @@ func (c *c11) RunCase(w *core.Worker, idx int, seed uint64, res *core.CaseResult
 		}
 		// (5) intended store
 		run.checkIntendedKeyed(where, "C11")
+		// (6) the tree's index of the stores (existence checks and precedence queries of the validators and the choice
+		// resolution): asked for every adversarial path and each of its prefixes, answered from what is really stored
+		c.indexProbe(ctx, res, run, where, paths)
 		// (4) GetData per list entry
 		running, _ := fixture.DumpStore(ctx, c.h.env.Cache, run.ds.Name, cachepb.Store_CONFIG)
 		_ = running
@@ -262,4 +268,85 @@ func (r *histRun) checkIntendedKeyed(tag, prop string) {
 	for i := n; i < len(r.res.Findings); i++ {
 		r.res.Findings[i].Key = strings.Replace(r.res.Findings[i].Key, "C02/", prop+"/intended-store-", 1)
 	}
+}
+
+// indexProbe asks the tree's cache client (the per-transaction index of the intended and the running store) about every
+// adversarial path and every prefix of it, and compares with the stored entries taken element by element.
+func (c *c11) indexProbe(ctx context.Context, res *core.CaseResult, run *histRun, where string, paths []string) {
+	dump, err := fixture.DumpIntended(ctx, c.h.env.Cache, run.ds.Name)
+	if err != nil {
+		return
+	}
+	running, _ := fixture.DumpStore(ctx, c.h.env.Cache, run.ds.Name, cachepb.Store_CONFIG)
+	tc := tree.NewTreeCacheClient(run.ds.Name, c.h.env.Cache)
+	seen := map[string]bool{}
+	for _, p := range paths {
+		full := strings.Split(model.CachePath(model.Parse(p)), ",")
+		for n := 1; n <= len(full); n++ {
+			q := full[:n]
+			qk := strings.Join(q, ",")
+			if seen[qk] {
+				continue
+			}
+			seen[qk] = true
+			// reference: element-wise
+			wantPrio := int32(math.MaxInt32)
+			wantExists := false
+			for _, e := range dump {
+				ep := strings.Split(e.Path, ",")
+				if len(ep) < n {
+					continue
+				}
+				same := true
+				for i := 0; i < n; i++ {
+					if ep[i] != q[i] {
+						same = false
+						break
+					}
+				}
+				if !same {
+					continue
+				}
+				if e.Priority < wantPrio {
+					wantPrio = e.Priority
+				}
+				if len(ep) == n {
+					wantExists = true
+				}
+			}
+			var gotPrio int32
+			var gotExists bool
+			var gotRunning *cache.Update
+			var rerr error
+			if apiCall(res, "TreeCacheClient", func() {
+				gotPrio = tc.GetBranchesHighesPrecedence(ctx, q)
+				gotExists, _ = tc.IntendedPathExists(ctx, q)
+				gotRunning, rerr = tc.ReadRunningPath(ctx, q)
+			}) {
+				return
+			}
+			res.Count("index_queries", 3)
+			if gotPrio != wantPrio {
+				res.Violate("C11/precedence-query-confuses-instance-paths", "%s: highest precedence at or below %q is %d, the index answers %d (intended store: %s)", where, q, wantPrio, gotPrio, intendedString(dump))
+			}
+			if gotExists != wantExists {
+				res.Violate("C11/existence-check-confuses-instance-paths", "%s: an intended entry for exactly %q exists=%v, the index answers %v (intended store: %s)", where, q, wantExists, gotExists, intendedString(dump))
+			}
+			_, wantRunning := running[qk]
+			if rerr == nil && (gotRunning != nil) != wantRunning {
+				res.Violate("C11/running-lookup-confuses-instance-paths", "%s: the running store holds %q=%v, the lookup answers %v", where, q, wantRunning, gotRunning != nil)
+			} else if gotRunning != nil && strings.Join(gotRunning.GetPath(), ",") != qk {
+				res.Violate("C11/running-lookup-confuses-instance-paths", "%s: the lookup of %q returns the entry %q", where, q, gotRunning.GetPath())
+			}
+		}
+	}
+}
+
+func intendedString(dump []fixture.IntendedEntry) string {
+	l := []string{}
+	for _, e := range dump {
+		l = append(l, e.Key()+"="+e.Value)
+	}
+	sort.Strings(l)
+	return strings.Join(l, "; ")
 }
